@@ -3,6 +3,7 @@ package vc
 import (
 	"fmt"
 	"go/token"
+	"go/types"
 	"os"
 	"path/filepath"
 	"sort"
@@ -47,8 +48,10 @@ func Load(patterns []string) (*Loaded, error) {
 			// generic functions: verify an instantiation (the generic body itself has type parameters);
 			// among instances the lexically smallest name wins, for determinism
 			if old, ok := l.Funcs[k]; ok {
-				oldGeneric := old.TypeParams().Len() > 0 && len(old.TypeArgs()) == 0
-				newGeneric := fn.TypeParams().Len() > 0 && len(fn.TypeArgs()) == 0
+				// an instance whose type arguments still mention type parameters (created inside another
+				// generic body) is as unusable as the generic body itself
+				oldGeneric := old.TypeParams().Len() > 0 && (len(old.TypeArgs()) == 0 || hasTypeParamArg(old))
+				newGeneric := fn.TypeParams().Len() > 0 && (len(fn.TypeArgs()) == 0 || hasTypeParamArg(fn))
 				if newGeneric || (!oldGeneric && old.String() <= fn.String()) {
 					continue
 				}
@@ -58,6 +61,43 @@ func Load(patterns []string) (*Loaded, error) {
 	}
 	l.Dur = time.Since(t0)
 	return l, nil
+}
+
+func hasTypeParamArg(fn *ssa.Function) bool {
+	for _, ta := range fn.TypeArgs() {
+		if mentionsTypeParam(ta, 0) {
+			return true
+		}
+	}
+	return false
+}
+
+func mentionsTypeParam(t types.Type, depth int) bool {
+	if depth > 6 {
+		return false
+	}
+	switch u := t.(type) {
+	case *types.TypeParam:
+		return true
+	case *types.Named:
+		if ta := u.TypeArgs(); ta != nil {
+			for i := 0; i < ta.Len(); i++ {
+				if mentionsTypeParam(ta.At(i), depth+1) {
+					return true
+				}
+			}
+		}
+		return false
+	case *types.Pointer:
+		return mentionsTypeParam(u.Elem(), depth+1)
+	case *types.Slice:
+		return mentionsTypeParam(u.Elem(), depth+1)
+	case *types.Array:
+		return mentionsTypeParam(u.Elem(), depth+1)
+	case *types.Map:
+		return mentionsTypeParam(u.Key(), depth+1) || mentionsTypeParam(u.Elem(), depth+1)
+	}
+	return false
 }
 
 // LoadContracts reads verif_contracts.go of every loaded in-module package (initial + deps).
